@@ -496,6 +496,8 @@ class HelicityAmplitudeBuilder:
             sequential_graphs = _perform_combinatorics(transition)
             for graph in sequential_graphs:
                 first_transition = _freeze(graph)
+                # symmetrized graphs have their own kinematic variables
+                self.adapter.register_transition(first_transition)
                 expression = self.__formulate_sequential_decay(first_transition)
                 sequential_expressions.append(expression)
 
